@@ -215,15 +215,23 @@ class ModelConnection:
         self.pending = []
         return False
 
+    interrupted = False
+
     def executemany(self, sql, rows):
         for r in rows:
             if self.fail_after is not None and self.rows_written == self.fail_after:
+                self.interrupted = True
                 raise self.exc("write interrupted")
             self.rows_written += 1
             (self.pending if self.depth else self.committed).append(tuple(r)[1:])
 
     def execute(self, sql, values=()):
-        self.executemany(sql, [values])
+        values = list(values)
+        if sql.lstrip().upper().startswith("INSERT") and len(values) > 6 and len(values) % 6 == 0:
+            # a multi-row INSERT ... VALUES (?,?,?,?,?,?), (?,...), ...: one statement, several rows
+            self.executemany(sql, [values[i:i + 6] for i in range(0, len(values), 6)])
+        else:
+            self.executemany(sql, [values])
 
     def __ch_deep_realize__(self, memo):
         return self
@@ -268,17 +276,70 @@ def atomic_body(t, via_logger):
         raised = e
     want = [(tr.func.__module__, tr.func.__qualname__) for tr in good]
     got = [(r[0], r[1]) for r in conn.committed]
-    interrupted = conn.fail_after is not None and conn.fail_after < len(good)
-    if interrupted:
+    if conn.interrupted:
         ok = got == [] and raised is not None
         return check(ok, lambda: f"batch of {n} (unserialisable: {bad}) interrupted after {fail_at} rows: {len(got)} rows committed "
                                  f"(must be none), exception seen: {raised!r}")
     if raised is not None:
         return check(False, lambda: f"batch of {n} (unserialisable: {bad}), no interruption: add raised {raised!r}")
-    return check(got == want and conn.pending == [], lambda: f"batch of {n} (unserialisable: {bad}): committed {got}, serialisable traces were {want}")
+    return check(sorted(set(got)) == sorted(set(want)) and conn.pending == [], lambda: f"batch of {n} (unserialisable: {bad}): committed {got}, serialisable traces were {want}")
 
 
 tape_harness("atomic", [("t", 8)], {"via_logger": "bool"}, atomic_body, globals())
+
+
+class NotAType:
+    """An 'argument type' that cannot be encoded (no __qualname__): the trace fails to serialise although its function is fine."""
+
+    __module__ = "vfix.funcs"
+
+
+def atomic_rich_body(t, sizes=(2, 3)):
+    """Batches whose traces share a function: identical traces, traces that differ ONLY in their yield / return / argument
+    type, and an unserialisable trace (bad function, or good function with an unencodable argument type) before or after a
+    serialisable trace of the same function.  Every DISTINCT serialisable trace must be committed, or none."""
+    n = sizes[t.take(len(sizes))]
+    traces, good = [], []
+    for i in range(n):
+        kind = t.take(3)  # 0 serialisable, 1 unserialisable function, 2 serialisable function with an unencodable argument type
+        func = F.mod_func if t.take(2) == 0 else (F.no_args, F.defaults, F.kw_only)[i]
+        variant = t.take(4)  # which column differs: none / yield type / return type / argument type
+        args = {"a": str if variant == 3 else int}
+        ret = str if variant == 2 else int
+        yld = (None, int)[1 if variant == 1 else 0]
+        if kind == 1:
+            tr = CallTrace(Unserialisable(), args, ret, yld)
+        elif kind == 2:
+            tr = CallTrace(func, {"a": NotAType()}, ret, yld)
+        else:
+            tr = CallTrace(func, args, ret, yld)
+            good.append(tr)
+        traces.append(tr)
+    fail_at = (None, 1)[t.take(2)]
+    conn = ModelConnection(fail_at, sqlite3.OperationalError)
+    raised = None
+    try:
+        SQLiteStore(conn).add(traces)
+    except Exception as e:  # noqa: BLE001
+        raised = e
+    from monkeytype.encoding import CallTraceRow
+
+    want = set()
+    for tr in good:
+        row = CallTraceRow.from_trace(tr)
+        want.add((row.module, row.qualname, row.arg_types, row.return_type, row.yield_type))
+    got = {tuple(r[:5]) for r in conn.committed}
+    desc = [(getattr(tr.func, "__qualname__", "<unserialisable>"), {k: getattr(v, "__name__", "<unencodable>") for k, v in tr.arg_types.items()},
+             getattr(tr.return_type, "__name__", None), getattr(tr.yield_type, "__name__", None)) for tr in traces]
+    if conn.interrupted:
+        return check(not conn.committed and raised is not None, lambda: f"batch {desc} interrupted after {fail_at} row(s): {len(conn.committed)} rows stayed committed")
+    if raised is not None:
+        return check(False, lambda: f"batch {desc}: add raised {raised!r}")
+    return check(got == want, lambda: f"batch {desc}: committed rows {sorted(got, key=repr)} != the distinct serialisable traces {sorted(want, key=repr)}")
+
+
+tape_harness("atomic_rich", [("t", 12)], {}, atomic_rich_body, globals())
+tape_harness("atomic_rich_quick", [("t", 9)], {}, lambda t: atomic_rich_body(t, (2,)), globals())
 
 BIG_SIZES = (600, 1100)
 BIG_FAULTS = (0, 1, 499, 500, 501, 999, 1000, -1, None)  # -1: after all but the last row; None: no fault
@@ -305,13 +366,38 @@ def atomic_big_body(t, quick=False):
     except Exception as e:  # noqa: BLE001
         raised = e
     got = len(conn.committed)
-    if fail_after is not None and fail_after < n_good:
+    if conn.interrupted:
         return check(got == 0 and raised is not None, lambda: f"batch of {n} traces interrupted after {fail_after} rows: {got} rows stayed committed (must be none)")
-    return check(got == n_good and raised is None, lambda: f"batch of {n} traces, no interruption: {got} of {n_good} serialisable traces committed, raised {raised!r}")
+    # not interrupted (an implementation may write fewer rows than traces by dropping exact duplicates): every DISTINCT
+    # serialisable trace must be there
+    from monkeytype.encoding import CallTraceRow
+
+    def distinct(rows):  # (plain lists: a 600-element set built under the engine nests its lazy filters too deep)
+        out = []
+        for r in sorted(repr(tuple(x)) for x in rows):
+            if not out or out[-1] != r:
+                out.append(r)
+        return out
+
+    rows = []
+    for tr in traces:
+        if not isinstance(tr.func, Unserialisable):
+            row = CallTraceRow.from_trace(tr)
+            rows.append((row.module, row.qualname, row.arg_types, row.return_type, row.yield_type))
+    want = distinct(rows)
+    have = distinct(r[:5] for r in conn.committed)
+    return check(have == want and raised is None, lambda: f"batch of {n} traces, no interruption: {len(have)} distinct rows committed, {len(want)} distinct serialisable traces, raised {raised!r}")
 
 
 tape_harness("atomic_big", [("t", 3)], {}, lambda t: atomic_big_body(t, False), globals())
 tape_harness("atomic_big_quick", [("t", 3)], {}, lambda t: atomic_big_body(t, True), globals())
+
+
+def rich_shards(quick=False):
+    from engine.verdicts import enumerate_prefixes
+
+    body = (lambda t: atomic_rich_body(t, (2,))) if quick else atomic_rich_body
+    return [{f"t{j}": v for j, v in enumerate(p)} for p in enumerate_prefixes(body, 4)]
 
 
 def big_shards(name):
